@@ -181,6 +181,8 @@ def run(tier="quick", seed=0, replay=None):
         return 1
     core.lean_stage(chk, "C13")
     from harness import cover
+    from harness import fingerprint
+    fingerprint.direct(chk, ['ixai/utils/wrappers/river.py', 'ixai/utils/validators/loss.py'])
     _cv = cover.Cover(['ixai/utils/wrappers/river.py', 'ixai/utils/validators/loss.py'])
     _cv.__enter__()
     quick = tier == "quick"
@@ -191,13 +193,13 @@ def run(tier="quick", seed=0, replay=None):
     for name, cls, dm in metrics:
         chk.case({"metric": name, "dict_input": dm}, nontrivial=True, sample=(name in ("MAE", "CrossEntropy", "Accuracy")))
         try:
-            f = metric_history_fails(chk, name, cls, dm, 40 if quick else 200)
+            f = metric_history_fails(chk, name, cls, dm, chk.count(40, 200))
         except Exception as ex:
             f = None
             chk.stat("metric_harness_error:" + name)
         if f:
             chk.violation(f"metric:{name}", f"river.metrics.{name} as loss: {f}", {"metric": name})
-    reqs, impls = exact_tie(chk, 40 if quick else 400)
+    reqs, impls = exact_tie(chk, chk.count(40, 400))
     if core.driver_available():
         try:
             answers = core.run_driver(reqs)
